@@ -766,3 +766,68 @@ mut("c09-quiet-if-form", ["C09"], [(RS, '''	if blockDisconnected.BlockHash() != 
 		return
 	}
 ''')], [])
+
+# ---- C10 ----
+US = "utxoscanner.go"
+mut("c10-drop-on-getblock-error", ["C10"], [(US, '''			for _, req := range newReqs {
+				req.deliver(nil, err)
+			}
+
+''', '')], ["C10.O1"])
+mut("c10-filter-error-continue", ["C10"], [(US, '''			match, err := s.cfg.BlockFilterMatches(options, hash)
+			if err != nil {
+				return reporter.FailRemaining(err)
+			}
+''', '''			match, err := s.cfg.BlockFilterMatches(options, hash)
+			if err != nil {
+				return err
+			}
+''')], ["C10.O2"])
+mut("c10-deliver-before-delete", ["C10"], [("batch_spend_reporter.go", '''	delete(b.requests, *outpoint)
+	delete(b.initialTxns, *outpoint)
+	delete(b.outpoints, *outpoint)
+
+	for _, request := range requests {
+		request.deliver(report, err)
+	}''', '''	for _, request := range requests {
+		request.deliver(report, err)
+	}
+	delete(b.initialTxns, *outpoint)
+	delete(b.outpoints, *outpoint)''')], ["C10.X1"])
+mut("c10-dequeue-no-lock", ["C10"], [(US, '''func (s *UtxoScanner) dequeueAtHeight(height uint32) []*GetUtxoRequest {
+	s.cv.L.Lock()
+	defer s.cv.L.Unlock()
+''', '''func (s *UtxoScanner) dequeueAtHeight(height uint32) []*GetUtxoRequest {
+''')], ["C10.L1"])
+mut("c10-stop-drain-unlocked", ["C10"], [(US, '''	s.cv.L.Lock()
+	for !s.pq.IsEmpty() {
+		pendingReq := heap.Pop(&s.pq).(*GetUtxoRequest)
+		pendingReq.deliver(nil, ErrShuttingDown)
+	}
+	s.cv.L.Unlock()''', '''	for !s.pq.IsEmpty() {
+		pendingReq := heap.Pop(&s.pq).(*GetUtxoRequest)
+		pendingReq.deliver(nil, ErrShuttingDown)
+	}''')], ["C10.L1"])
+mut("c10-blocking-deliver", ["C10"], [(US, '''	select {
+	case r.resultChan <- &getUtxoResult{report, err}:
+	default:
+		log.Warnf("duplicate getutxo result delivered for "+
+			"outpoint=%v, spend=%v, err=%v",
+			r.Input.OutPoint, report, err)
+	}''', '''	r.resultChan <- &getUtxoResult{report, err}''')], ["C10.X1"])
+mut("c10-old-requests-dropped", ["C10"], [(US, '''		item := heap.Pop(&s.pq).(*GetUtxoRequest)
+		s.nextBatch = append(s.nextBatch, item)''', '''		_ = heap.Pop(&s.pq).(*GetUtxoRequest)''')], ["C10.O1"])
+mut("c10-no-final-notify", ["C10"], [(US, '''	reporter.NotifyUnspentAndUnfound()
+
+	return nil''', '''	return nil''')], ["C10.O2"])
+mut("c10-quiet-helper-failreqs", ["C10"], [(US, '''			for _, req := range newReqs {
+				req.deliver(nil, err)
+			}
+''', '''			zzFailAll(newReqs, err)
+'''), (US, '''// dequeueAtHeight returns all GetUtxoRequests''', '''func zzFailAll(reqs []*GetUtxoRequest, err error) {
+	for _, r := range reqs {
+		r.deliver(nil, err)
+	}
+}
+
+// dequeueAtHeight returns all GetUtxoRequests''')], [])
